@@ -209,7 +209,7 @@ def run(self, env):
     if self.flow.start_time:
         yield env.timeout(self.flow.start_time)
     while env.now < self.flow.finish_time:
-        if self.flow.size and self.next_seq >= self.flow.size:
+        if self.flow.size is not None and self.next_seq >= self.flow.size:
             return
         while self.next_seq >= self.send_buffer:
             if self.flow.arrival_dist:
@@ -221,7 +221,7 @@ def run(self, env):
             if self.flow.size_dist:
                 packet_size = self.flow.size_dist()
             else:
-                if self.flow.size:
+                if self.flow.size is not None:
                     packet_size = min(self.mss, self.flow.size - self.next_seq)
                 else:
                     packet_size = self.mss
@@ -229,21 +229,21 @@ def run(self, env):
         if self.next_seq + self.mss <= min(self.send_buffer, self.last_ack + self.congestion_control.cwnd):
             packet = Packet(time=env.now, size=self.mss, packet_id=self.next_seq, src=self.flow.src, flow_id=self.flow.flow_id)
             self.sent_packets[packet.packet_id] = packet
-            assert self.out
-            self.out.put(packet)
             self.next_seq += packet.size
             self.timers[packet.packet_id] = Timer(env, timeout=self.rto, timeout_callback=self.timeout_callback, args=packet.packet_id)
+            assert self.out
+            self.out.put(packet)
         else:
             yield self.cwnd_avaialbe.get()
 ''')
 
-spec('TCPPacketGenerator', 'timeout_callback', what='timeout: cwnd rule, retransmit the segment, double the sender\'s RTO, '
-                                                    're-arm the segment\'s timer with it - on every path')('''
+spec('TCPPacketGenerator', 'timeout_callback', what='timeout: cwnd rule, double the sender\'s RTO and re-arm the segment\'s timer with it, then '
+                                                    'retransmit the segment (the ACK may come back synchronously and remove the timer) - on every path')('''
 def timeout_callback(self, packet_id):
     self.congestion_control.timer_expired()
-    self.resend_packet(packet_id)
     self.rto *= 2
     self.timers[packet_id].restart(self.rto)
+    self.resend_packet(packet_id)
 ''')
 
 spec('TCPPacketGenerator', 'put', what='duplicate ACK counted; new ACK leaves fast recovery (dupack >= 3 -> dupack_over) and '
@@ -253,6 +253,8 @@ spec('TCPPacketGenerator', 'put', what='duplicate ACK counted; new ACK leaves fa
 def put(self, ack):
     assert ack.flow_id >= 10000
     ackno = ack.ack
+    if ackno < self.last_ack:
+        return
     if ackno == self.last_ack:
         self.dupack += 1
     else:
